@@ -29,7 +29,7 @@ StepObs == Act /\ err' = Ev.err /\ ~Obs
 TStep == /\ tid <= Len(Traces) /\ l <= Len(Traces[tid].events)
          /\ Act /\ err' = Ev.err /\ Obs
          /\ l' = l + 1 /\ UNCHANGED <<tid, nfail>>
-Fresh == /\ inst' = [i \in 1..NInst |-> None] /\ bag' = [i \in 1..NInst |-> <<>>]
+Fresh == /\ inst' = [i \in 1..NInst |-> None] /\ bag' = [i \in 1..NInst |-> <<>>] /\ base' = [i \in 1..NInst |-> None]
          /\ fs' = [p \in Paths |-> Absent] /\ err' = "" /\ nops' = 0 /\ lastSaved' = [p \in Paths |-> None]
          /\ lastOp' = [op |-> "init", ow |-> FALSE]
 TAdvance ==
